@@ -175,7 +175,8 @@ mtext("C17",
       "DESIGN.md 4.C17")
 
 check("C08", "exploration",
-      [dict(world="map", mode=8, variants={"rel": 0.8, "asan": 0.2}, quick=60000, thorough=3600000)],
+      [dict(world="map", mode=8, variants={"rel": 0.8, "asan": 0.2}, quick=60000, thorough=3600000),
+       dict(world="map", mode=108, variants={"rel": 0.5, "asan": 0.5}, quick=4, thorough=64, min_mem_gib=2)],
       RULE_SEQ + "; a quarter of the runs attach an allocation failure to some inserts",
       ["src/map.c", "src/rbtree.c", "src/bintree.c", "include/cstl/map.h"],
       required_probes=["insert_new", "insert_existing", "alloc_fail_fired", "erase_present", "erase_absent", "erase_iterator", "find_present", "find_absent", "map_clear", "comparator_consults_another_map", "erase_iterator_held_across_other_erases", "insert_with_key_object_reused_after_failed_find"],
@@ -310,7 +311,8 @@ check("C15", "exploration",
        dict(world="trees", mode=102, variants={"rel": 0.5, "asan": 0.5}, quick=8, thorough=300),
        dict(world="heap", mode=15, variants=V_C15, quick=30000, thorough=1000000),
        dict(world="lists", mode=15, variants=V_C15, quick=30000, thorough=1000000),
-       dict(world="map", mode=15, variants={"asan": 0.5, "rel": 0.5}, quick=30000, thorough=1000000)],
+       dict(world="map", mode=15, variants={"asan": 0.5, "rel": 0.5}, quick=30000, thorough=1000000),
+       dict(world="map", mode=115, variants={"rel": 0.5, "asan": 0.5}, quick=4, thorough=64, min_mem_gib=2)],
       "one evaluation = one seeded history in which clear is frequent and its callback counts per element, overwrites the whole element with 0xDD and frees it to the sim heap (poisoned, quarantined; really freed under ASan), "
       "followed by a refill of the same container and ordinary operations with the world's full audit; container states at the moment of clear come from the preceding seeded history; distinct = distinct plan hash; non-trivial as in the world",
       ["src/bintree.c (clear)", "src/dlist.c", "src/slist.c", "src/map.c", "include/cstl/rbtree.h", "include/cstl/heap.h"],
